@@ -1244,6 +1244,216 @@ class TreeProfile(Translator):
                 f"  {{ left := {regs[0]}, right := {regs[1]}, height := {regs[2]}, pad := {regs[3]}, key := {self.ex(vals['key'])}, val := {self.ex(vals['value'])} }}")
 
 
+# ==================================================================================== hash set profile
+class HashSetProfile(TreeProfile):
+    STATE_TY = "HImage β"
+    PRE_PARAMS = "(hash : β → Nat) (d : HRec β)"
+    PRE_ARGS = "hash d"
+    FUEL = "m0.recs.length + 1"
+    TYPE_MAP = {"V": "β"}
+    FIELDS = {"Size": "size", "Capacity": "cap", "FreeListHead": "flh", "Sequence": "seq"}
+    REGS = {"Bucket": "bucket", "Next": "next"}
+    REC_FIELDS = {"value": "val"}
+
+    def __init__(self, src, wanted):
+        self.recvals = set()
+        self.hashers = {}
+        Translator.__init__(self, src, wanted)
+        self.INT_BITS = 32
+        self.height_ok = True
+
+    def accept_fn(self, f):
+        if f.name in ("get_register", "set_register", "get_field", "set_field", "initialize"):
+            return False
+        if f.name == "next":
+            return False
+        return True
+
+    def preprocess(self, f):
+        pass
+
+    def translate_fn(self, fi):
+        self.recvals = set()
+        self.hashers = {}
+        return Translator.translate_fn(self, fi)
+
+    def treat_as_mut(self, f):
+        return False
+
+    def param_type(self, f, pn, pt):
+        return self.lean_type(pt)
+
+    def ret_type_override(self, f, ret):
+        return ret
+
+    def default_of(self, ty):
+        if ty == "V":
+            return "d.val"
+        raise Untranslatable(f"default of {ty}")
+
+    def const_path(self, p):
+        return None
+
+    def ctor_pattern(self, p):
+        return None
+
+    def alias_target(self, init):
+        if init.kind == "ref" and init.e.kind == "macro" and init.e.name in ("node", "bucket_node"):
+            if init.e.name == "bucket_node":
+                raise Untranslatable("alias of a bucket record")
+            return TreeProfile.alias_target(self, init)
+        return None
+
+    def let_stmt(self, s):
+        pat, init = s.pat, s.init
+        if pat.kind == "pident" and init is not None:
+            # `let mut hasher = DefaultHasher::new();`
+            if init.kind == "call" and init.f.kind == "path" and init.f.path == ["DefaultHasher", "new"]:
+                self.hashers[pat.name] = None
+                return
+            # by-value copy of a record: `let node = node!(self.nodes, current);`
+            if init.kind == "macro" and init.name == "node" and self.is_nodes(init.args[0]):
+                idx = self.ex(init.args[1], hoist=True)
+                self.em.w(f"let {self.bind(pat.name)} := rd d m {self.atom(idx)}")
+                self.recvals.add(pat.name)
+                return
+            self.recvals.discard(pat.name)
+        return Translator.let_stmt(self, s)
+
+    def effect_stmt(self, e):
+        # `value.hash(&mut hasher);`
+        if e.kind == "mcall" and e.name == "hash" and len(e.args) == 1:
+            a = e.args[0]
+            while a.kind == "ref":
+                a = a.e
+            if a.kind == "path" and len(a.path) == 1 and a.path[0] in self.hashers:
+                if self.hashers[a.path[0]] is not None:
+                    raise Untranslatable("hasher fed twice")
+                self.hashers[a.path[0]] = self.ex(e.recv)
+                return True
+        return Translator.effect_stmt(self, e)
+
+    def record_of(self, e, hoist):
+        if e.kind == "macro" and e.name == "node" and self.is_nodes(e.args[0]):
+            return ("rd", self.ex(e.args[1], hoist))
+        if e.kind == "macro" and e.name == "bucket_node" and self.is_nodes(e.args[0]):
+            return ("rdB", self.ex(e.args[1], hoist))
+        if e.kind == "path" and len(e.path) == 1 and e.path[0] in self.aliases:
+            return ("rd", self.aliases[e.path[0]])
+        if e.kind in ("ref", "deref", "paren"):
+            return self.record_of(e.e, hoist)
+        return None
+
+    def rec_read(self, e, hoist):
+        """Lean term for a record-valued expression."""
+        if e.kind in ("ref", "deref", "paren"):
+            return self.rec_read(e.e, hoist)
+        if e.kind == "path" and len(e.path) == 1 and e.path[0] in self.recvals:
+            return self.lookup(e.path[0])
+        r = self.record_of(e, hoist)
+        if r is not None:
+            return f"({r[0]} d m {self.atom(r[1])})"
+        return None
+
+    def profile_mcall(self, e, hoist):
+        if e.name == "get_field" and self.is_alloc(e.recv):
+            return f"m.hdr.{self.field_name(e.args[0])}"
+        if e.name == "get_register":
+            r = self.rec_read(e.recv, hoist)
+            if r is not None:
+                return f"{r}.{self.reg_name(e.args[0])}"
+        if e.name == "finish" and e.recv.kind == "path" and len(e.recv.path) == 1 and e.recv.path[0] in self.hashers:
+            fed = self.hashers[e.recv.path[0]]
+            if fed is None:
+                raise Untranslatable("hasher finished before it was fed")
+            return f"(hash {self.atom(fed)})"
+        if e.name == "len" and self.is_nodes(e.recv):
+            return "m.recs.length"
+        return None
+
+    def profile_field(self, e, hoist):
+        r = self.rec_read(e.e, hoist)
+        if r is not None and e.name in self.REC_FIELDS:
+            return f"{r}.{self.REC_FIELDS[e.name]}"
+        return None
+
+    def ex(self, e, hoist=False):
+        return Translator.ex(self, e, hoist)
+
+    def emit_return(self, e):
+        Translator.emit_return(self, e)
+
+    def wr_fn(self, r):
+        return "wr" if r[0] == "rd" else "wrB"
+
+    def profile_effect(self, e):
+        if e.kind != "mcall":
+            return False
+        if e.name == "set_field" and self.is_alloc(e.recv):
+            f = self.field_name(e.args[0])
+            v = self.ex(e.args[1], hoist=True)
+            self.em.w(f"m := {{ m with hdr := {{ m.hdr with {f} := {v} }} }}")
+            return True
+        if e.name == "set_register":
+            r = self.record_of(e.recv, True)
+            if r is not None:
+                reg = self.reg_name(e.args[0])
+                v = self.ex(e.args[1], hoist=True)
+                self.em.w(f"m := {self.wr_fn(r)} m {self.atom(r[1])} fun r => {{ r with {reg} := {v} }}")
+                return True
+        return False
+
+    def profile_assign(self, s):
+        lhs = s.lhs
+        if lhs.kind == "field" and s.op == "=":
+            r = self.record_of(lhs.e, True)
+            if r is not None and lhs.name in self.REC_FIELDS:
+                v = self.ex(s.rhs, hoist=True)
+                self.em.w(f"m := {self.wr_fn(r)} m {self.atom(r[1])} fun r => {{ r with {self.REC_FIELDS[lhs.name]} := {v} }}")
+                return True
+        return False
+
+
+HSET_FUNCS = {n: n for n in ["capacity", "size", "is_full", "is_empty", "contains", "add_node", "remove_node", "insert", "remove"]}
+
+HSET_HEADER = '''/-
+  GENERATED by tools/rust2lean.py from {path} — do not edit.
+  A syntax-directed transliteration of the Rust functions into Lean `do` notation (see the translator's
+  docstring for the conventions). `hash` stands for `DefaultHasher` applied to the value (`hasher.finish()`).
+  `Stevia/Proofs/GenHSet.lean` proves each definition equal to the literal model `Stevia.HImp.*`.
+-/
+import Stevia.Model.HashSetImp
+import Stevia.Model.Fuel
+
+namespace Stevia
+namespace {ns}
+open HImp
+variable {{β : Type}} [DecidableEq β]
+set_option linter.unusedVariables false
+
+'''
+
+
+def gen_hset(rel, ns, outname):
+    path = os.path.join(REPO, rel)
+    report = {"source": rel, "namespace": ns, "translated": [], "untranslatable": {}, "missing": []}
+    try:
+        src = open(path).read()
+        tr = HashSetProfile(src, HSET_FUNCS)
+        order = order_functions(tr)
+        tr.fns = {n: tr.fns[n] for n in order}
+        body = tr.translate_all()
+        report["translated"] = [n for n in tr.fns if n not in tr.errors]
+        report["untranslatable"] = tr.errors
+        report["missing"] = tr.missing
+    except (OSError, ParseError) as ex:
+        body = ""
+        report["untranslatable"]["<file>"] = str(ex)
+    text = HSET_HEADER.format(path=rel, ns=ns) + body + f"\n\nend {ns}\nend Stevia\n"
+    write_if_changed(os.path.join(GEN, outname), text)
+    return report
+
+
 TREE_FUNCS = {"initialize": "node_initialize"}
 TREE_FUNCS.update({n: n for n in ["capacity", "len", "is_full", "is_empty", "find", "get", "lowest", "contains", "update_height",
               "update_child", "balance_factor", "left_rotate", "right_rotate", "rebalance", "add", "remove_node",
@@ -1331,6 +1541,7 @@ def main():
     reports = [
         gen_tree("src/collections/avl_tree.rs", "Gen32", 32, "Avl32.lean"),
         gen_tree("src/collections/u8_avl_tree.rs", "Gen8", 8, "Avl8.lean"),
+        gen_hset("src/collections/hash_set.rs", "GenH", "HSet.lean"),
     ]
     print(json.dumps({"translator": reports}))
 
